@@ -19,3 +19,53 @@ pub fn same(a: &U256, l: [u64; 4]) -> bool {
 pub fn bit(l: &[u64; 4], i: usize) -> bool {
     if i >= 256 { false } else { (l[i / 64] >> (i % 64)) & 1 == 1 }
 }
+
+// ---------------------------------------------------------------- stack helpers (C17 stack ops, C18)
+use crate::interpreter::stack::Stack;
+
+pub const MAXV: usize = 8;
+
+pub fn any_vals<const N: usize>() -> [U256; N] {
+    let mut v = [U256([0; 4]); N];
+    let mut i = 0;
+    while i < N {
+        v[i] = any_u256();
+        i += 1;
+    }
+    v
+}
+
+/// Build a stack holding vals[0..d] (vals[0] deepest) through the real checked `push`.
+pub fn build<const N: usize>(vals: &[U256; N], d: usize) -> Stack {
+    let mut s = Stack::new();
+    let mut i = 0;
+    while i < N {
+        if i < d {
+            assert!(s.push(vals[i]).is_ok());
+        }
+        i += 1;
+    }
+    assert!(s.len() == d);
+    s
+}
+
+pub fn eq(a: &U256, b: &U256) -> bool {
+    same(a, b.0)
+}
+
+/// Pops everything that is left and checks it equals vals[0..d] (top first).
+pub fn drain_equals<const N: usize>(s: &mut Stack, vals: &[U256; N], d: usize) {
+    assert!(s.len() == d);
+    let mut i = N;
+    while i > 0 {
+        i -= 1;
+        if i < d {
+            let v = s.pop();
+            assert!(v.is_ok());
+            assert!(eq(&v.unwrap(), &vals[i]));
+        }
+    }
+    assert!(s.len() == 0);
+    assert!(s.is_empty());
+}
+
